@@ -87,6 +87,10 @@ type pathRun struct {
 	concPts  []concPt
 	draining bool
 	inc      *smt.Inc
+	anyTab   map[*value]value
+	merrMsg  map[*value]string
+	observing bool
+	canonMemo map[[2]int]*smt.Term
 	hashIntApps []hashIntApp
 }
 
@@ -294,7 +298,9 @@ func (p *pathRun) modelStrings(m map[string]*big.Int) map[string]string {
 func (p *pathRun) assert(fr *frame, label string, cond *smt.Term) {
 	if len(p.trail) < len(p.prefix) {
 		// already evaluated by the path this prefix was split from
-		p.addPC(cond)
+		if !p.observing {
+			p.addPC(cond)
+		}
 		return
 	}
 	ob := Obligation{Kind: "assert", Label: label, Site: p.site(fr), Trail: trailString(p.trail)}
@@ -304,8 +310,21 @@ func (p *pathRun) assert(fr *frame, label string, cond *smt.Term) {
 		p.res.Obligations = append(p.res.Obligations, ob)
 		return
 	}
+	if cond.IsFalse() && p.eng.seenViolation(p.harness, label) >= 3 {
+		// concretely false and already reported with models on other paths: no query
+		ob.Status = "violated"
+		ob.Diag = "concretely false (model omitted: reported with a model on earlier paths)"
+		p.res.Obligations = append(p.res.Obligations, ob)
+		if !p.observing {
+			p.finish("ok", "assertion failed unconditionally")
+		}
+		return
+	}
 	t0 := time.Now()
 	r, m, d := p.query(p.ctx.Not(cond), p.eng.VerdictMs, true)
+	if r == smt.Sat {
+		p.eng.noteViolation(p.harness, label)
+	}
 	switch r {
 	case smt.Unsat:
 		ob.Status = "discharged"
@@ -318,7 +337,8 @@ func (p *pathRun) assert(fr *frame, label string, cond *smt.Term) {
 	}
 	p.res.Obligations = append(p.res.Obligations, ob)
 	// continue under the asserted condition so later obligations are independent
-	if r != smt.Unsat {
+	// (an Observe obligation leaves the path unconstrained)
+	if r != smt.Unsat && !p.observing {
 		p.addPC(cond)
 		if cond.IsFalse() {
 			p.finish("ok", "assertion failed unconditionally")
